@@ -8,17 +8,24 @@ NOTES = ("Every check: (1) regenerates any Gen/*.lean from /repo, (2) lake-build
 NOT_YET = {}
 
 CHECKS = {'C01': {'text': 'Lean theorems about an interleaving transition system of the RPC call life cycle (one object, one peer connection, unboundedly '
-                 'many calls/callers, removal / stop of either context / disconnect / serialisation faults at any point): at_most_once, own_outcome '
-                 '(every configuration); no_loss_partial (carrier invariant), calls_complete_partial (quiescent => every call has its outcome), '
-                 'activity_terminates (measure), object_survives_partial for the repaired configuration with the client context not stopped; '
-                 'decide-checked hang witnesses for each loss path of the pinned tree. Tie: real contexts under a deterministic scheduler + '
-                 "simulated network; observed outcome vectors must lie in the model's terminal set (Lean driver explores the model exhaustively per "
-                 'scenario); fault swept over every yield index.',
-         'note': "Trusted: Lean kernel + 3 axioms; scheduler/simnet harness; model atomicity follows the code's locks and is validated by "
-                 'outcome-set inclusion (bounded, per scenario); pickle/asyncio/OS sockets modelled; model config bits are probed on the current '
-                 'source. Liveness is proved in the `_partial` form; the full form is false on the pinned tree (5 known findings).',
-         'technique': 'Lean 4 proof (inductive invariants + termination measure over an interleaving model) + outcome-set correspondence under a '
-                      'deterministic scheduler'},
+                 'many calls/callers; removal / stop of either context / disconnect / serialisation faults at any point): at_most_once, own_outcome '
+                 '(every configuration); calls_complete — FULL statement for the configuration of the current source: whenever the system is at rest '
+                 "every issued call has its outcome, except the calls in the ghost set `lost` (requests dropped by the caller's own stopping "
+                 'context), with lost_only_when_client_stopped (`lost = []` unless the client context was stopped) and no_loss (carrier-or-lost '
+                 "invariant); activity_terminates (measure: every internal action decreases `mu`, so completion needs no fairness beyond 'enabled "
+                 "threads run'); object_survives; kernel-checked hang witnesses for each historical loss path and for the remaining one "
+                 '(client_stop_loses_request). 26 theorems. Tie: real contexts/proxies/worker/socket threads under a deterministic scheduler + '
+                 "simulated network; for every generated scenario the observed outcome vector must lie in the model's terminal set (the Lean driver "
+                 "explores the model exhaustively per scenario); the fault is swept over every yield index; the model's configuration bits are "
+                 'probed on the current source on every run.',
+         'note': "Trusted: Lean kernel + 3 axioms; scheduler/simnet harness; atomicity of model actions follows the code's locks and is validated by "
+                 'outcome-set inclusion (bounded, per scenario); pickle/asyncio/OS sockets modelled; one object + one connection (others are '
+                 'independent copies). Fixed in /repo: 5177c53 (force_unlock on an unlocked object killed the worker), dc3d515 (unpicklable '
+                 'arguments/results and oversize results left the caller waiting) — reverting either is reported as a violation. Open known finding: '
+                 "a call issued while the caller's own context is being stopped can be dropped silently (exactly the `lost` set of the theorem); "
+                 'repair judged not small/safe (DESIGN §11.4).',
+         'technique': 'Lean 4 proof (inductive carrier-or-lost invariant, structural queue invariants, termination measure over an interleaving '
+                      'model) + outcome-set correspondence under a deterministic scheduler'},
  'C02': {'text': 'Lean theorems over the forwarding model (all method names, args, kwargs, aliases, context names, any number of concurrent callers '
                  'and arrival orders): proxy_eq_direct at full strength (outcome of a blocking or non-blocking proxy call = outcome of the direct '
                  'call, local and peer placement, with stubs and helper signature as extracted from the current source, given pickle round-trips the '
